@@ -67,6 +67,11 @@ CLAIMED = {
         "Trusted: separator classifier transcribed from docs/DigitSeparators.md and the per-mode examples documented in skip.rs; only ~130 of the 16^3 mode triples are compiled.",
         "bounded-exhaustive enumeration + property-based testing: metamorphic relations and a reference classifier",
     ),
+    "C14": (
+        "Per compiled writer format (radix 10, every power-of-two and generic radix, mixed bases, sign/notation flag variants) and float type: finite values (structured bits; short digit strings in the output radix giving exact ties and carry patterns) x generated options (max/min digits 1..64, breaks, Round/Truncate, trim, custom punctuation). Metamorphic oracle: the output, read by a strict reader with the configured punctuation, must equal the default output of the same float rounded in exact digit arithmetic (half-even / truncate, carry adjusts the exponent), with <= max and >= min digits, '.0' trimmed exactly for integral outputs, and exponent notation iff required or the (rounded) scientific exponent is outside the breaks and never when forbidden.",
+        "Trusted: exact digit arithmetic in the harness; the library's default output is the base of the relation. For power-of-two radices the break unit is undocumented (notation only demanded where digit and bit readings agree); mixed bases are exempt from the notation clause. Four known findings with structural matchers.",
+        "property-based testing with a metamorphic oracle (default output rounded in exact arithmetic)",
+    ),
     "C15": (
         "Parse side: generated (format, float type, nan/inf/infinity option strings from a fixed pool of 1..50 letter strings incl. None) x inputs derived from a configured string (exact, prefixes, one-byte extensions, case flips, 0x20-neighbours, separator insertion, sign variants) compared with a reference matcher; numeric inputs never yield NaN and keep the sign of zero; the partial parser returns specials only for configured strings. Write side: +-0, +-inf, NaNs with either sign bit and payloads x every compiled writer format x option strings or None: exact bytes, sign rules, panic when disabled, zero parses back with its sign.",
         "Trusted: reference matcher in harness/vcore/refparse.rs; radices >= 19 (where special strings are partly numeric) are excluded here and covered by the C11 finding. One known finding (separator run before a special string is skipped).",
